@@ -328,6 +328,11 @@ pub fn ascii_hex(data: &[u8]) -> Vec<u8> {
         }
         out.extend_from_slice(format!("{:02X}", b).as_bytes());
     }
+    // a final 0 digit may be left out (ISO 32000-1 7.4.2: an odd number of digits is completed by 0);
+    // done for data of odd length, so that both forms occur
+    if data.len() % 2 == 1 && data.last().map_or(false, |b| b & 0x0f == 0) {
+        out.pop();
+    }
     out.push(b'>');
     out
 }
@@ -814,7 +819,13 @@ pub fn strict_read(bytes: &[u8], spec: &DocSpec, k: usize) -> Result<BTreeMap<u3
                 }
                 let data = match filter {
                     StmFilter::None => raw.to_vec(),
-                    StmFilter::AsciiHex => unhex(std::str::from_utf8(raw).map_err(|_| "hex")?.replace(['\n', '>'], "").as_str()).ok_or("hex")?,
+                    StmFilter::AsciiHex => {
+                        let mut t = std::str::from_utf8(raw).map_err(|_| "hex")?.replace(['\n', '>'], "");
+                        if t.len() % 2 == 1 {
+                            t.push('0');
+                        }
+                        unhex(&t).ok_or("hex")?
+                    }
                     StmFilter::FlateStored => unstored(raw).ok_or("stored zlib")?,
                     StmFilter::Lzw => {
                         let mut o = vec![];
